@@ -1,33 +1,288 @@
 """Registry of checks: property id -> function(tier, replay_path) -> exit code."""
+import glob
 import json
 import os
+import re
+import shutil
+import subprocess
 
 import checks_rules as R
+import chessutil
 import vcommon
 from vcommon import Run, ToolError, log
 
+SEEDS_TXT = os.path.join(vcommon.VERIF, "harness", "seeds.txt")
+
+
+def n_seeds():
+    return len([l for l in open(SEEDS_TXT) if l.strip()])
+
+
+def small_seeds_file():
+    path = os.path.join(vcommon.BUILD, "seeds_small.ndjson")
+    os.makedirs(vcommon.BUILD, exist_ok=True)
+    with open(path, "w") as f:
+        for x in open(os.path.join(vcommon.SPEC, "seeds_small.txt")):
+            if x.strip():
+                f.write(json.dumps(chessutil.fen_to_s(x.strip())) + "\n")
+    return path
+
+
+def model_game(run, tier):
+    """Design level: ChessGame.tla (generator / text applier / hash / repetition record written as the code's own
+    steps) explored exhaustively by TLC from small-material seeds; every invariant on every object."""
+    ply = "2" if tier == "quick" else "3"
+    r = vcommon.tlc("MC_Game", "MC_Game_fixed.cfg", env={"SEEDS": small_seeds_file(), "MAXPLY": ply}, workers=vcommon.NCPU,
+                    xmx="8g", timeout=3000)
+    if not r["ok"]:
+        raise ToolError("ChessGame model run failed (the specification of the repaired code must satisfy its invariants):\n"
+                        + r["out"][-3000:])
+    run.add("states", r["distinct"])
+    run.add("transitions", r["states"])
+    run.cov["model"] = {"module": "ChessGame (MC_Game_fixed.cfg)", "max_ply": int(ply), "distinct_states": r["distinct"],
+                        "states_generated": r["states"], "wall_s": round(r["wall"], 1)}
+
+
+def mk(pid, tier, replay):
+    return Run(pid, tier, "model_checking", replay=bool(replay) or bool(os.environ.get("VERIF_NO_EVIDENCE")))
+
+
+RULE_TEXT = ("engine-driven random playouts (biased towards castling, en passant, promotion, double steps, corner rook "
+             "moves/captures, repetitions) from %d seed FENs, followed through the engine's own successor objects; every "
+             "visited position is one gen event judged by TLC against Chess.tla; events_validated / event_counts are "
+             "measured by the specification itself")
+
 
 def c01(tier, replay):
-    run = Run("C01", tier, "model_checking", replay=bool(replay))
+    run = mk("C01", tier, replay)
     if replay:
         R.replay_walk(run, "C01", replay)
         return run.finish()
-    n = 320 if tier == "quick" else 4000
+    n = 320 if tier == "quick" else 3000
     totals, _ = R.rules_trace(run, "C01", ["--playouts", n, "--plies", 40], "playout")
     R.need(totals, ["gen", "castle", "ep", "promo", "incheck"])
-    run.cov["rule"] = ("engine-driven random playouts (biased towards castling, en passant, promotion, double steps, corner "
-                       "rook moves) from %d seed FENs; every visited position is one gen event whose descriptor set is "
-                       "compared with Chess!Legal by TLC" % len(open(os.path.join(vcommon.VERIF, "harness", "seeds.txt")).read().split("\n")))
+    model_game(run, tier)
+    run.cov["rule"] = RULE_TEXT % n_seeds() + "; compared: descriptor set = Chess!Legal both ways, multiplicity"
     return run.finish()
 
 
-CHECKS = {"C01": c01}
+def c02(tier, replay):
+    run = mk("C02", tier, replay)
+    if replay:
+        R.replay_walk(run, "C02", replay)
+        return run.finish()
+    n = 200 if tier == "quick" else 2000
+    totals, _ = R.rules_trace(run, "C02", ["--playouts", n, "--plies", 40, "--text", 1], "playout")
+    R.need(totals, ["gen", "castle", "ep", "promo"])
+    model_game(run, tier)
+    run.cov["rule"] = RULE_TEXT % n_seeds() + ("; compared per successor: placement, side, rights, ep target, king cache = "
+                                               "Chess!Apply; descriptor in Legal; the engine's own printed bestmove text = Chess!MoveText")
+    return run.finish()
+
+
+def c04(tier, replay):
+    run = mk("C04", tier, replay)
+    if replay:
+        spec = json.load(open(replay))["replay"]
+        if spec.get("type") == "position":
+            R.replay_position(run, "C04", spec["cmd"])
+        else:
+            R.replay_walk(run, "C04", replay)
+        return run.finish()
+    n = 200 if tier == "quick" else 2000
+    totals, _ = R.rules_trace(run, "C04", ["--playouts", n, "--plies", 40, "--text", 1, "--pos", 1, "--repeat-bias", 0.2], "playout")
+    R.need(totals, ["gen", "castle", "ep", "promo", "pos"])
+    model_game(run, tier)
+    run.cov["rule"] = RULE_TEXT % n_seeds() + ("; every generated successor's printed text is replayed through uci::make_move and "
+                                               "compared with Chess!Apply and with the generator's successor (key included); whole games "
+                                               "through play_out_position compared at every prefix")
+    return run.finish()
+
+
+def c05(tier, replay):
+    run = mk("C05", tier, replay)
+    if replay:
+        spec = json.load(open(replay))["replay"]
+        if spec.get("type") == "position":
+            R.replay_position(run, "C05", spec["cmd"])
+        else:
+            R.replay_walk(run, "C05", replay)
+        return run.finish()
+    h = vcommon.build_harness()
+    audit = vcommon.run_harness(h, ["audit"])
+    run.cov["zobrist_audit"] = audit
+    if audit["constants"] != 781 or audit["distinct"] != 781 or audit["zeros"] != 0:
+        run.violation("audit", "Zobrist constants are not 781 distinct non-zero values: %s" % audit, {"type": "audit"})
+    n = 200 if tier == "quick" else 2000
+    totals, _ = R.rules_trace(run, "C05", ["--playouts", n, "--plies", 40, "--text", 1, "--pos", 1, "--caps-prob", 0.15,
+                                            "--repeat-bias", 0.1], "playout")
+    R.need(totals, ["gen", "castle", "ep", "promo", "pos"])
+    # FEN loader as third producer
+    d = R.trace_dir("C05-fen")
+    vcommon.run_harness(h, ["fen", "--out", d, "--shards", vcommon.NCPU, "--seed", vcommon.seed(), "--playouts", 40, "--plies", 30, "--fuzz", 0, "--random-strings", 0])
+    res = vcommon.validate_shards("TraceRules", "TraceRules.cfg", sorted(glob.glob(os.path.join(d, "rules*.ndjson"))))
+    R.judge(run, "C05", res)
+    shutil.rmtree(d, ignore_errors=True)
+    model_game(run, tier)
+    run.assumptions.append("XOR of 64-bit constants is abstracted as symmetric difference of feature sets; sound because the audit "
+                           "shows the 781 constants distinct and non-zero (residues are resolved up to three features)")
+    run.cov["rule"] = RULE_TEXT % n_seeds() + ("; residue (incremental key XOR key from scratch, resolved to feature ids) must be empty "
+                                               "for every state from the generator (both modes), the text applier, play_out_position and the FEN loader")
+    return run.finish()
+
+
+def c06(tier, replay):
+    run = mk("C06", tier, replay)
+    h = vcommon.build_harness()
+    if replay:
+        spec = json.load(open(replay))["replay"]
+        d = R.trace_dir("C06-replay")
+        with open(os.path.join(d, "rules00.ndjson"), "w") as f:
+            ev = spec["event"]
+            f.write(json.dumps(ev) + "\n")
+        # re-run the engine on the logged placement
+        vcommon.run_harness(h, ["rechk", "--in", os.path.join(d, "rules00.ndjson"), "--out", os.path.join(d, "rules01.ndjson")])
+        os.remove(os.path.join(d, "rules00.ndjson"))
+        res = vcommon.validate_shards("TraceRules", "TraceRules.cfg", [os.path.join(d, "rules01.ndjson")])
+        R.judge(run, "C06", res)
+        return run.finish()
+    stride = 8 if tier == "quick" else 1
+    d = R.trace_dir("C06-fam")
+    summ = vcommon.run_harness(h, ["chk", "--out", d, "--shards", vcommon.NCPU, "--seed", vcommon.seed(), "--stride", stride,
+                                   "--randoms", 3000 if tier == "quick" else 30000])
+    files = sorted(glob.glob(os.path.join(d, "rules*.ndjson")))
+    ev = json.loads(open(files[0]).readline())
+    run.sample({"event": "chk", "family": ev["fam"], "placement": chessutil.s_to_fen(ev["pos"]), "engine_says": ev["chk"]})
+    res = vcommon.validate_shards("TraceRules", "TraceRules.cfg", files)
+    totals = R.judge(run, "C06", res)
+    shutil.rmtree(d, ignore_errors=True)
+    run.cov["families"] = summ
+    run.cov["exhaustive"] = bool(summ.get("exhaustive"))
+    # plus the check flags of ordinary game positions
+    t2, _ = R.rules_trace(run, "C06", ["--playouts", 120 if tier == "quick" else 1000, "--plies", 40], "playout")
+    R.need(t2, ["gen", "incheck"])
+    R.need(totals, ["chk"])
+    run.cov["rule"] = ("families enumerated by the harness: (A) king on every square x enemy Q/R/B/N/P on every other square, both "
+                       "colours; (B) the same with one blocker (own pawn, enemy pawn, enemy knight) on every square strictly between; "
+                       "(C) both kings on every ordered pair of squares; (D) random placements with up to 24 extra men; quick = every "
+                       "%d-th member (offset from the seed), thorough = all; is_check for both colours judged by Chess!InCheck" % stride)
+    return run.finish()
+
+
+def c13(tier, replay):
+    run = mk("C13", tier, replay)
+    if replay:
+        R.replay_walk(run, "C13", replay)
+        return run.finish()
+    n = 160 if tier == "quick" else 1500
+    totals, _ = R.rules_trace(run, "C13", ["--playouts", n, "--plies", 40, "--caps-prob", 0.6, "--caps-budget", 16], "capschains")
+    R.need(totals, ["gen", "ep", "promo"])
+    model_game(run, tier)
+    run.cov["rule"] = RULE_TEXT % n_seeds() + ("; at 60% of the visited positions a depth-first walk over capture-only generations (depth <= 6, "
+                                               "<= 3 branches per node, as quiescence follows them) is logged; per event: descriptor set = Chess!LegalCaptures, "
+                                               "successors = Chess!Apply, chain consistency")
+    return run.finish()
+
+
+def c14(tier, replay):
+    run = mk("C14", tier, replay)
+    h = vcommon.build_harness()
+    d = R.trace_dir("C14")
+    if replay:
+        spec = json.load(open(replay))["replay"]
+        with open(os.path.join(d, "in.ndjson"), "w") as f:
+            f.write(json.dumps(spec["event"]) + "\n")
+        vcommon.run_harness(h, ["reeval", "--in", os.path.join(d, "in.ndjson"), "--out", os.path.join(d, "rules00.ndjson")])
+        os.remove(os.path.join(d, "in.ndjson"))
+    else:
+        summ = vcommon.run_harness(h, ["eval", "--out", d, "--shards", vcommon.NCPU, "--seed", vcommon.seed(),
+                                       "--randoms", 6000 if tier == "quick" else 150000])
+        run.cov["families"] = summ
+    files = sorted(glob.glob(os.path.join(d, "rules*.ndjson")))
+    ev = json.loads(open(files[0]).readline())
+    run.sample({"event": "eval", "placement": chessutil.s_to_fen(ev["p"]), "e": ev["e"], "e_mirror": ev["e_m"], "e_swapped": ev["e_swap"]})
+    res = vcommon.validate_shards("TraceRules", "TraceRules.cfg", files)
+    totals = R.judge(run, "C14", res)
+    shutil.rmtree(d, ignore_errors=True)
+    if not replay:
+        R.need(totals, ["eval"])
+    run.cov["rule"] = ("single-piece basis (12 pieces x 64 squares x phase ballast 0/12/24 x both sides to move, exhaustive), maximal material "
+                       "(K+9Q+2R+2B+2N) against a lone king and against the same, random placements with up to 32 men (legal or not); TLC checks "
+                       "the harness's mirror against Chess!Mirror, e(mirror) = e, e(other side) = -e, insensitivity to rights / ep / descriptor / "
+                       "key / king cache, |e| < 50000 for material within the stated bound")
+    run.assumptions.append("the specification supplies Mirror/SwapSide and the relational contract, not the evaluation tables")
+    return run.finish()
+
+
+def c15(tier, replay):
+    run = mk("C15", tier, replay)
+    h = vcommon.build_harness()
+    d = R.trace_dir("C15")
+    if replay:
+        spec = json.load(open(replay))["replay"]
+        with open(os.path.join(d, "in.ndjson"), "w") as f:
+            f.write(json.dumps(spec["event"]) + "\n")
+        if spec["event"]["ev"] == "cli":
+            cli_events(vcommon.build_binary(False), [spec["event"]], os.path.join(d, "rules00.ndjson"))
+        else:
+            vcommon.run_harness(h, ["refen", "--in", os.path.join(d, "in.ndjson"), "--out", os.path.join(d, "rules00.ndjson")])
+        os.remove(os.path.join(d, "in.ndjson"))
+    else:
+        quick = tier == "quick"
+        summ = vcommon.run_harness(h, ["fen", "--out", d, "--shards", vcommon.NCPU - 1, "--seed", vcommon.seed(),
+                                       "--playouts", 60 if quick else 600, "--plies", 30, "--fuzz", 4 if quick else 6,
+                                       "--random-strings", 2000 if quick else 50000])
+        run.cov["inputs"] = summ
+        inputs = json.load(open(os.path.join(d, "cli_inputs.json")))
+        n = cli_events(vcommon.build_binary(False), inputs, os.path.join(d, "rules%02d.ndjson" % (vcommon.NCPU - 1)))
+        run.cov["cli_runs"] = n
+    files = sorted(glob.glob(os.path.join(d, "rules*.ndjson")))
+    ev = json.loads(open(files[0]).readline())
+    run.sample({"event": ev["ev"], "kind": ev.get("kind"), "input": ev.get("input", "")[:120], "outcome": ev.get("outcome", ev.get("exit"))})
+    res = vcommon.validate_shards("TraceRules", "TraceRules.cfg", files)
+    totals = R.judge(run, "C15", res)
+    shutil.rmtree(d, ignore_errors=True)
+    if not replay:
+        R.need(totals, ["fen", "cli"])
+    run.cov["rule"] = ("spec FENs: positions of engine playouts rendered with counters from {0,1,49,50,99,100,255,256,300,5949,65535,10^6}; TLC checks "
+                       "the string equals Chess!ToFen of the position and the loaded state equals the position; totality: field-wise and character-level "
+                       "mutations (ep and counter fields from fixed nasty lists, rows with 7/9 squares, very long input, non-ASCII) and random strings: "
+                       "outcome must be ok or err; the real binary `walleye --fen <s> -T -d 1` must exit 0")
+    run.assumptions.append("'all strings' is sampled, not proved")
+    return run.finish()
+
+
+def cli_events(binary, inputs, out_path):
+    n = 0
+    with open(out_path, "w") as f:
+        for item in inputs:
+            s = item["input"]
+            if "\x00" in s:
+                continue
+            try:
+                p = subprocess.run([binary, "--fen", s, "-T", "-d", "1"], stdout=subprocess.PIPE, stderr=subprocess.PIPE, timeout=20)
+                code, out = p.returncode, p.stdout.decode("utf-8", "replace")
+            except subprocess.TimeoutExpired:
+                code, out = -9, ""
+            first = out.splitlines()[0] if out.splitlines() else ""
+            f.write(json.dumps({"ev": "cli", "kind": item["kind"], "input": s, "exit": code, "searched": first.startswith("Searched"),
+                                "line": first[:200]}) + "\n")
+            n += 1
+    return n
+
+
+CHECKS = {"C01": c01, "C02": c02, "C04": c04, "C05": c05, "C06": c06, "C13": c13, "C14": c14, "C15": c15}
 
 
 def setup():
+    """Build everything once and run the specification's self-checks."""
+    import selfcheck
     vcommon.build_harness()
-    return 0
+    vcommon.build_binary(False)
+    vcommon.build_binary(True)
+    return selfcheck.run(quick=True)
 
 
 def selftest():
-    return 0
+    import selfcheck
+    return selfcheck.run(quick=False)
